@@ -2,6 +2,8 @@
 //!
 //!   bfm_dist [wi n warcs] s   =>  (panic | none | [d…])  (- | [dijkstra d…])
 //!
+//!   bfm_dist_repeat [wi n warcs] s k   =>  panic | [r1 … rk]     (k calls of `distances()` on the SAME object)
+//!
 //! `d` entries: integers, `inf` for `isize::MAX` (BFM) / `usize::MAX` (Dijkstra).  The second
 //! output is the real `DijkstraDist::distances` on the same arcs (as an
 //! `AdjacencyListWeighted<usize>`), only when every weight is non-negative and `s` is in range.
@@ -59,6 +61,35 @@ pub fn eval(op: &str, args: &[V]) -> Option<Vec<V>> {
                 V::atom("-")
             };
             Some(vec![out, dij])
+        }
+        "bfm_dist_repeat" => {
+            let [gd, s, k] = args else { return None };
+            let desc = Desc::parse(gd)?;
+            if desc.repr != "wi" {
+                return None;
+            }
+            let s = s.as_usize()?;
+            let k = k.as_usize()?;
+            let n = desc.order();
+            if n == 0 || k > 8 || desc.arcs.iter().any(|&(u, v)| u >= n || v >= n || u == v) {
+                return None;
+            }
+            let digraph = desc.build_wi();
+            let res = catch_unwind(AssertUnwindSafe(|| {
+                let mut bfm = BellmanFordMoore::new(&digraph, s);
+                let mut outs: Vec<V> = Vec::with_capacity(k);
+                for _ in 0..k {
+                    outs.push(match bfm.distances() {
+                        None => V::none(),
+                        Some(d) => V::L(d.iter().map(|&x| if x == isize::MAX { inf() } else { V::i(x) }).collect()),
+                    });
+                }
+                outs
+            }));
+            Some(vec![match res {
+                Err(_) => V::atom("panic"),
+                Ok(outs) => V::L(outs),
+            }])
         }
         _ => None,
     }
@@ -130,7 +161,17 @@ fn potential_graph(rng: &mut Rng, n: usize, dens: (u64, u64)) -> WArcs {
     m
 }
 
+/// Quick tier: the driver's list-based model and oracle cost ~ n^2 * m per case, so orders above 24
+/// come only with sparse arc sets there (thorough / stress: everything up to order 40).
+static QUICK: std::sync::atomic::AtomicBool = std::sync::atomic::AtomicBool::new(false);
+fn quick() -> bool {
+    QUICK.load(std::sync::atomic::Ordering::Relaxed)
+}
+
 fn density(rng: &mut Rng, n: usize) -> (u64, u64) {
+    if quick() && n > 24 {
+        return *rng.pick(&[(1, n as u64), (2, n as u64), (1, 10)]);
+    }
     *rng.pick(&[(1, n.max(1) as u64), (2, n.max(1) as u64), (1, 10), (3, 10), (6, 10), (1, 1)])
 }
 
@@ -184,7 +225,7 @@ fn random_case(rng: &mut Rng, emit: &mut dyn FnMut(String)) {
         }
         // non-negative weights: Dijkstra comparison
         2 | 3 => {
-            let (_, d) = graphs::gen_wdesc(rng, "wi", 40, 0, 9);
+            let (_, d) = graphs::gen_wdesc(rng, "wi", if quick() { 24 } else { 40 }, 0, 9);
             let n = d.order();
             let m: WArcs = d.arcs.iter().zip(&d.weights).map(|(&a, &w)| (a, w as i64)).collect();
             emit_sources(rng, n, &m, None, emit);
@@ -227,7 +268,7 @@ fn random_case(rng: &mut Rng, emit: &mut dyn FnMut(String)) {
         }
         // plain random weights -4..9 on the shared families (sparse ones often circuit-free)
         _ => {
-            let (_, d) = graphs::gen_wdesc(rng, "wi", 40, -4, 9);
+            let (_, d) = graphs::gen_wdesc(rng, "wi", if quick() { 24 } else { 40 }, -4, 9);
             let n = d.order();
             let m: WArcs = d.arcs.iter().zip(&d.weights).map(|(&a, &w)| (a, w as i64)).collect();
             emit_sources(rng, n, &m, None, emit);
@@ -259,7 +300,151 @@ fn exact_count_case(rng: &mut Rng, n: usize, m_arcs: usize, emit: &mut dyn FnMut
     }
 }
 
-pub fn gen(rng: &mut Rng, thorough: bool, emit: &mut dyn FnMut(String)) {
+const MAXI: i128 = isize::MAX as i128;
+const MINI: i128 = isize::MIN as i128;
+
+/// For an ACYCLIC arc set: every sum `dist_u + w` the real code can form (a path weight from any
+/// start, extended by one arc) stays strictly inside `isize` and below the sentinel.
+fn dag_fits(n: usize, arcs: &WArcs) -> bool {
+    let mut hi = vec![0i128; n];
+    let mut lo = vec![0i128; n];
+    for _ in 0..=n {
+        for (&(u, v), &w) in arcs {
+            let w = i128::from(w);
+            hi[v] = hi[v].max(hi[u] + w);
+            lo[v] = lo[v].min(lo[u] + w);
+        }
+    }
+    arcs.iter().all(|(&(u, _), &w)| hi[u] + i128::from(w) < MAXI - 1 && lo[u] + i128::from(w) > MINI + 1)
+}
+
+/// Large weights whose path sums fit in `isize` (DAGs, so every tentative distance is a path weight):
+/// a vertex at distance >= isize::MAX/2 that still has out-arcs, sums next to isize::MAX, huge negative
+/// weights, huge weights that cancel.
+fn large_case(rng: &mut Rng, emit: &mut dyn FnMut(String)) {
+    let half: i64 = i64::MAX >> 1; // isize::MAX / 2
+    let n = 2 + rng.below(7);
+    let down = rng.chance(1, 3); // path n-1 -> … -> 0: one more round per hop
+    let vert = |i: usize| if down { n - 1 - i } else { i };
+    let mut m = WArcs::new();
+    let small = |rng: &mut Rng| rng.range(-4, 9);
+    match rng.below(6) {
+        // haul: one arc of about MAX/2 (or more), the rest small
+        0 | 1 | 2 => {
+            let j = if rng.chance(2, 3) { 0 } else { rng.below(n - 1) };
+            let h = match rng.below(6) {
+                0 => half,
+                1 => half + 1,
+                2 => half + 1000,
+                3 => half + (1i64 << 61),
+                4 => i64::MAX - (1i64 << 20),
+                _ => half - 1 - rng.range(0, 5),
+            };
+            for i in 0..n - 1 {
+                let _ = m.insert((vert(i), vert(i + 1)), if i == j { h } else { small(rng) });
+            }
+        }
+        // quarters: four arcs of nearly 2^61 each
+        3 => {
+            for i in 0..(n - 1).min(4) {
+                let _ = m.insert((vert(i), vert(i + 1)), (1i64 << 61) - 1 - rng.range(0, 1_000_000));
+            }
+            for i in 4..n - 1 {
+                let _ = m.insert((vert(i), vert(i + 1)), rng.range(-4, 0));
+            }
+        }
+        // huge negative weights
+        4 => {
+            for i in 0..n - 1 {
+                let w = if i < 3 { -(1i64 << 61) + rng.range(0, 1_000_000) } else { small(rng) };
+                let _ = m.insert((vert(i), vert(i + 1)), w);
+            }
+        }
+        // huge weights that cancel
+        _ => {
+            for i in 0..n - 1 {
+                let w = match i % 3 {
+                    0 => (1i64 << 62) + rng.range(0, 1000),
+                    1 => -(1i64 << 62) + rng.range(0, 1000),
+                    _ => small(rng),
+                };
+                let _ = m.insert((vert(i), vert(i + 1)), w);
+            }
+        }
+    }
+    // a few extra arcs in path direction (keeps the digraph acyclic): shortcuts and detours
+    for _ in 0..rng.below(4) {
+        let a = rng.below(n);
+        let b = rng.below(n);
+        if a < b && !m.contains_key(&(vert(a), vert(b))) {
+            let w = if rng.chance(1, 4) { (1i64 << 50) + rng.range(0, 1 << 20) } else { rng.range(0, 9) };
+            let _ = m.insert((vert(a), vert(b)), w);
+        }
+    }
+    if !dag_fits(n, &m) {
+        return;
+    }
+    emit_sources(rng, n, &m, Some(vert(0)), emit);
+}
+
+/// The structured families of `random_case` with every weight multiplied by a large factor
+/// (circuits, negative circuits, early exits … at 2^31 … 2^49 magnitude).  Every value the code
+/// can form is the weight of a walk with at most 3·(n-1)·m arcs (three calls), far inside isize.
+fn scaled_case(rng: &mut Rng, emit: &mut dyn FnMut(String)) {
+    let mut lines: Vec<String> = vec![];
+    random_case(rng, &mut |l| lines.push(l));
+    for l in lines {
+        let Some(vs) = crate::value::parse_line(&l) else { continue };
+        let Some(mut d) = vs.get(1).and_then(Desc::parse) else { continue };
+        let n = d.order() as i128;
+        let m = d.arcs.len() as i128;
+        let factors: [i128; 3] = [(1 << 31) + 1, 1 << 40, (1 << 45) + 12_345];
+        let k = *rng.pick(&factors);
+        // |value| <= steps * 9 * k with steps <= 3 (n-1) m
+        if 3 * n * m.max(1) * 9 * k >= (1i128 << 62) {
+            continue;
+        }
+        for w in &mut d.weights {
+            *w *= k;
+        }
+        emit(format!("bfm_dist {} {}", d.to_v(), vs[2]));
+    }
+}
+
+pub fn gen(rng: &mut Rng, thorough: bool, emit0: &mut dyn FnMut(String)) {
+    let stress = crate::stress();
+    QUICK.store(!thorough || stress, std::sync::atomic::Ordering::Relaxed);
+    // every 4th `bfm_dist` line is followed by the same input with 2 or 3 calls on the same object
+    let mut rep_rng = rng.fork();
+    let mut emit_fn = |l: String| {
+        let rep = if rep_rng.chance(if stress { 1 } else { 1 }, if stress { 2 } else { 4 }) {
+            l.strip_prefix("bfm_dist ").map(|rest| format!("bfm_dist_repeat {rest} {}", 2 + rep_rng.below(2)))
+        } else {
+            None
+        };
+        emit0(l);
+        if let Some(r) = rep {
+            emit0(r);
+        }
+    };
+    let emit: &mut dyn FnMut(String) = &mut emit_fn;
+    // (0) large weights whose sums fit (most promising for a search: first)
+    let n_large = if stress { 1_500 } else if thorough { 600 } else { 160 };
+    for _ in 0..n_large {
+        large_case(rng, emit);
+    }
+    let n_scaled = if stress { 1_000 } else if thorough { 400 } else { 60 };
+    for _ in 0..n_scaled {
+        scaled_case(rng, emit);
+    }
+    if stress {
+        // the regular structured families once more (every second one with repeated calls), then stop:
+        // the search budget is short and the exhaustive streams were already run by the thorough tier
+        for _ in 0..1_000 {
+            random_case(rng, emit);
+        }
+        return;
+    }
     // (1) every arc count 0..=13 (all residues mod 4 several times) on small orders, all sources
     let reps = if thorough { 40 } else { 5 };
     for m_arcs in 0..=13usize {
@@ -270,7 +455,7 @@ pub fn gen(rng: &mut Rng, thorough: bool, emit: &mut dyn FnMut(String)) {
         }
     }
     // (2) structured random cases
-    let n_random = if thorough { 10_000 } else { 320 };
+    let n_random = if thorough { 10_000 } else { 500 };
     for _ in 0..n_random {
         random_case(rng, emit);
     }
